@@ -442,6 +442,17 @@ theorem step_inv (s : St) (op : Op) (h : Inv s) : Inv (step s op).1 := by
           · exact h.defs_ok d h1 l hdl
           · simp at h1; subst h1; exact hl l hdl }
     · exact h
+  | deldef k sc =>
+    simp only [step]
+    split
+    · rename_i s' hd
+      unfold deleteDefinedName at hd
+      repeat' split at hd
+      all_goals first
+        | (cases hd
+           exact { h with defs_ok := fun d hd' l hl => h.defs_ok d ((List.eraseIdx_sublist _ _).subset hd') l hl })
+        | cases hd
+    · exact h
   | setcell n v =>
     simp only [step]
     split
